@@ -18,9 +18,14 @@ LEVEL = "other"
 # their own bodies. That is sound only because both back-ends run those bodies atomically (no skipping inside): C02's RULE
 # rule decides the wrapper each back-end puts around every (modifier x WHITESPACE/COMMENT) rule; it is re-run here.
 DEPENDS = [
-    ("C02", {"only_rules": ["RULE"],
+    ("C02", {"only_rules": ["RULE", "EXPR", "SKIP", "BUILTINS"], "skip_keys": ["NodeTag"],
              "why": "termination of the implicit-skip loop relies on WHITESPACE/COMMENT bodies running under "
-                    "atomic(Atomic) in the generator and the VM"}),
+                    "atomic(Atomic) in the generator and the VM; and the validator reasons about the operators as the "
+                    "documentation defines them - `e+` must need one iteration in both back-ends, or a grammar it "
+                    "accepts loops at run time"}),
+    ("C05", {"why": "validation runs before optimisation: what it proved about progress and failure holds for the rules "
+                    "that are executed only if every pass preserves their meaning (`(!\"a\" ~ ANY)+` rewritten into a "
+                    "skip that can match nothing makes an accepted repetition spin)"}),
 ]
 PEXPR = "pest_meta::parser::ParserExpr"
 CHECK = "pest_meta::validator::left_recursion::check_expr"
